@@ -1078,6 +1078,7 @@ async fn run_upload(sh: &Shared, part: usize, parts: usize, tier: Tier, wd: &Pat
     let mut by_status: BTreeMap<String, u64> = BTreeMap::new();
     let mut refused = 0u64;
     let mut accepted = 0u64;
+    let mut lock_waits = 0u64;
     for (ci, c) in cases.iter().enumerate() {
         if ci % parts != part {
             continue;
@@ -1187,9 +1188,21 @@ async fn run_upload(sh: &Shared, part: usize, parts: usize, tier: Tier, wd: &Pat
             }
         }
         // a subsequent correct upload succeeds and downloads byte-exact
-        let r = w.req(reqwest::Method::PUT, &secret, &true_name, Some(blob.clone())).await;
+        // 409 = the server still holds the per-file operation lock of the
+        // previous request (an aborted upload ends when the server notices
+        // the closed connection): wait for it, a lock that is never
+        // released is a failure
+        let mut r = w.req(reqwest::Method::PUT, &secret, &true_name, Some(blob.clone())).await;
         out.cnt.requests += 1;
+        let t_lock = Instant::now();
+        while matches!(r, Ok((409, _))) && t_lock.elapsed() < Duration::from_secs(8) {
+            tokio::time::sleep(Duration::from_millis(50)).await;
+            r = w.req(reqwest::Method::PUT, &secret, &true_name, Some(blob.clone())).await;
+            out.cnt.requests += 1;
+            lock_waits += 1;
+        }
         match r {
+            Ok((409, _)) => fail(format!("upload:file_lock_not_released:after_{}", c.kind), "8 s after the request ended the server still answers 409 (operation in progress) for the file".into()),
             Ok((st, _)) if (200..300).contains(&st) => accepted += 1,
             Ok((st, _)) => fail(format!("upload:correct_upload_refused:after_{}", c.kind), format!("the correct body sent afterwards was answered {}", st)),
             Err(e) => fail(format!("upload:correct_upload_refused:after_{}", c.kind), e),
@@ -1219,7 +1232,7 @@ async fn run_upload(sh: &Shared, part: usize, parts: usize, tier: Tier, wd: &Pat
         fails.push("upload:temp_file_left_behind:at_end".into(), format!("files in the server's blob store that are not blobs: {:?}", disk.stray.iter().take(3).collect::<Vec<_>>()), json!({}));
     }
     w.server.stop().await;
-    out.extra = json!({"by_status": by_status, "refused": refused, "accepted_correct": accepted});
+    out.extra = json!({"by_status": by_status, "refused": refused, "accepted_correct": accepted, "lock_waits": lock_waits});
     for f in fails.0 {
         out.fails.push(json!({"sig": f["sig"], "what": f["what"], "witness": f["detail"]}));
     }
@@ -1242,10 +1255,10 @@ fn items(tier: Tier) -> (Vec<Item>, Vec<Vec<Op>>) {
     let mut v = vec![];
     let paths = enumerate_paths(&symbolic_root(false), depth_b(tier), tier);
     // longest items first: sub-trees below the account that already holds
-    // a file secret (quick: file-system backend only, see `rule`)
+    // a file secret (thorough only, see `rule`)
     for root in ["P", "E"] {
         for backend in [Backend::Fs, Backend::Db] {
-            if tier == Tier::Quick && root == "P" && backend == Backend::Db {
+            if tier == Tier::Quick && root == "P" {
                 continue;
             }
             let n = symbolic_root(root == "P").enabled(tier).len();
@@ -1401,7 +1414,7 @@ fn main() {
     if args.rest.iter().any(|a| a == "--plan") {
         // size of the enumeration, nothing is executed
         let nodes = |root: bool| -> usize { (1..=depth_a(args.tier)).map(|d| enumerate_paths(&symbolic_root(root), d, args.tier).len()).sum() };
-        println!("work items {}; part a histories per backend: from two folders {}, from two folders + one file secret {}; part b maximal histories {} per backend", its.len(), nodes(false), nodes(true), paths.len());
+        println!("work items {}; part a histories per backend: from two folders {}, from two folders + one file secret {} (thorough tier only); part b maximal histories {} per backend", its.len(), nodes(false), nodes(true), paths.len());
         std::process::exit(0);
     }
     let mut run = Run::new("C17", "model_checking", &args);
@@ -1485,7 +1498,7 @@ fn main() {
     cov.insert("traces_validated_against_impl".into(), json!(histories[0] + histories[1] + histories[2]));
     cov.insert("samples".into(), json!(all_samples));
     cov.insert("exhaustive".into(), json!(true));
-    cov.insert("rule".into(), json!(format!("(a) every history up to depth {da} over {{create file secret (6000-byte content in the default folder | 100-byte content in the second folder; the other combinations arise through replace and move), replace content (Account::update_file), update meta only, move to the other folder, delete secret, delete the second folder, archive}} x every live file secret, from the two-folder account (file-system and sqlite client backends) and from the two-folder account that already holds one file secret (i.e. depth {da1} histories that begin with a create; {pb}), explored as a tree with directory snapshots; each file encryption / decryption costs about 1 s (age scrypt), hence the shallow depth. (b) every maximal history of depth {db} from the two-folder account through the real NetworkAccount (sync + file transfer queue) against an in-process server, second device = real NetworkAccount on a copy of the initial account that syncs after every step{late}. (c) a {blen}-byte real encrypted blob: every single-byte alteration ({vals} per position), truncation at every length, empty, 3 extended bodies, 2 wrong names, connection closed midway at {ab} length, repeated upload; each followed by a correct upload and a download. A state is the id-free model state (folder liveness, per file secret folder and content) per backend", da = depth_a(args.tier), da1 = depth_a(args.tier) + 1, pb = args.tier.pick("file-system backend only in this tier", "both backends"), db = depth_b(args.tier), late = args.tier.pick("", "; and the same histories performed with no server configured, after which first the editing device and then the second device add the server"), blen = std::fs::metadata(&sh.upload_blob).map(|m| m.len()).unwrap_or(0), vals = args.tier.pick("3 values", "all 255 values"), ab = args.tier.pick("every 16th", "every"))));
+    cov.insert("rule".into(), json!(format!("(a) every history up to depth {da} over {{create file secret (6000-byte content in the default folder | 100-byte content in the second folder; the other combinations arise through replace and move), replace content (Account::update_file), update meta only, move to the other folder, delete secret, delete the second folder, archive}} x every live file secret, from the two-folder account{pb}, on the file-system and sqlite client backends, explored as a tree with directory snapshots; each file encryption / decryption costs about 1 s (age scrypt), hence the shallow depth. (b) every maximal history of depth {db} from the two-folder account through the real NetworkAccount (sync + file transfer queue) against an in-process server, second device = real NetworkAccount on a copy of the initial account that syncs after every step{late}. (c) a {blen}-byte real encrypted blob: every single-byte alteration ({vals} per position), truncation at every length, empty, 3 extended bodies, 2 wrong names, connection closed midway at {ab} length, repeated upload; each followed by a correct upload and a download. A state is the id-free model state (folder liveness, per file secret folder and content) per backend", da = depth_a(args.tier), pb = args.tier.pick(String::new(), format!(" and from the two-folder account that already holds one file secret (i.e. depth {} histories that begin with a create)", depth_a(args.tier) + 1)), db = depth_b(args.tier), late = args.tier.pick("", "; and the same histories performed with no server configured, after which first the editing device and then the second device add the server"), blen = std::fs::metadata(&sh.upload_blob).map(|m| m.len()).unwrap_or(0), vals = args.tier.pick("3 values", "all 255 values"), ab = args.tier.pick("every 16th", "every"))));
     cov.insert("part_a_histories_one_device".into(), json!({"histories": histories[0], "depth": depth_a(args.tier), "backends": ["fs", "sqlite"], "work_items": its.iter().filter(|i| matches!(i, Item::Hist { .. })).count()}));
     cov.insert("part_b_transfer".into(), json!({"machinery": "real sos_net::NetworkAccount on both devices (add_server, automatic sync after every operation, its own file transfer queue); not the bare HttpClient file API", "maximal_histories": histories[1], "depth": depth_b(args.tier), "device_and_server_backends": args.tier.pick("fs", "fs and sqlite"), "second_device_syncs": cnt.syncs}));
     cov.insert("part_c_upload_inputs".into(), json!({"inputs": histories[2], "http_requests": cnt.requests, "wrong_bodies_refused": refused, "correct_uploads_accepted_afterwards": accepted, "responses": upload_status}));
